@@ -87,17 +87,18 @@ type l1Cfg struct {
 }
 
 type l1World struct {
-	e       *henv.L1
-	cfg     l1Cfg
-	users   []henv.User
-	denoms  []string
-	bridges map[uint64]*mBridge
-	ids     []uint64
-	nextID  uint64 // model of the next bridge id
-	feePool sdk.AccAddress
-	fee     sdk.Coins
-	log     []string
-	stats   map[string]int
+	e            *henv.L1
+	cfg          l1Cfg
+	users        []henv.User
+	denoms       []string
+	bridges      map[uint64]*mBridge
+	ids          []uint64
+	nextID       uint64 // model of the next bridge id
+	feePool      sdk.AccAddress
+	feeCollector sdk.AccAddress
+	fee          sdk.Coins
+	log          []string
+	stats        map[string]int
 	// deposits to ids that had no bridge at the time, per id (D2 class)
 	ghostDeposits map[uint64]int
 	active        []uint64 // when set, operations pick their bridge from this subset
@@ -137,6 +138,9 @@ func newL1World(rt *rapid.T, cfg l1Cfg) *l1World {
 	big, _ := math.NewIntFromString("147573952589676412928") // 2^67
 	e.Fund(w.users[0].Addr, sdk.NewCoin("uinit", big))
 	w.feePool = authtypes.NewModuleAddress(distributiontypes.ModuleName)
+	w.feeCollector = authtypes.NewModuleAddress(authtypes.FeeCollectorName)
+	w.e.AK.GetModuleAccount(w.e.Ctx, distributiontypes.ModuleName)
+	w.e.AK.GetModuleAccount(w.e.Ctx, authtypes.FeeCollectorName)
 	if cfg.manyBridges && rapid.IntRange(0, 7).Draw(rt, "many") == 0 {
 		// a chain that already hosts many bridges: operations then work on the first two and the last two
 		n := rapid.IntRange(65, 140).Draw(rt, "nbridges")
@@ -193,12 +197,12 @@ func (w *l1World) knownAccounts() []sdk.AccAddress {
 		for _, id := range w.watchIDs() {
 			out = append(out, escrowAddr(id))
 		}
-		return append(out, w.feePool)
+		return append(out, w.feePool, w.feeCollector)
 	}
 	for id := uint64(1); id <= w.nextID+2; id++ {
 		out = append(out, escrowAddr(id))
 	}
-	out = append(out, escrowAddr(77), w.feePool)
+	out = append(out, escrowAddr(77), w.feePool, w.feeCollector)
 	return out
 }
 
@@ -321,6 +325,10 @@ func (w *l1World) drawRecipientString(rt *rapid.T) string {
 	case 0, 1, 2:
 		return w.user(rt, "to").Str
 	case 3:
+		if rapid.IntRange(0, 2).Draw(rt, "padded") == 0 {
+			// a recipient with white space around it (L1 relays the string byte for byte)
+			return rapid.SampledFrom([]string{" ", "\n", "\t", ""}).Draw(rt, "padl") + w.user(rt, "to").Str + rapid.SampledFrom([]string{" ", "\n", "\t ", "\r\n"}).Draw(rt, "padr")
+		}
 		return rapid.StringN(1, 20, 60).Draw(rt, "tostr")
 	default:
 		return "init1" + rapid.StringMatching("[a-z0-9]{10,38}").Draw(rt, "toinit")
@@ -356,9 +364,13 @@ func (w *l1World) opDeposit(rt *rapid.T) *l1Step {
 	to := w.drawRecipientString(rt)
 	data := rapid.SliceOfN(rapid.Byte(), 0, 24).Draw(rt, "data")
 	coin := sdk.Coin{Denom: denom, Amount: amt}
-	msg := ophosttypes.NewMsgInitiateTokenDeposit(sender.Str, id, to, coin, data)
+	senderStr := sender.Str
+	if rapid.IntRange(0, 11).Draw(rt, "upperSender") == 0 {
+		senderStr = strings.ToUpper(senderStr) // the all-upper-case spelling of the same address (valid bech32)
+	}
+	msg := ophosttypes.NewMsgInitiateTokenDeposit(senderStr, id, to, coin, data)
 	_, existed := w.bridges[id]
-	st := &l1Step{Kind: "deposit", Bridge: id, Signer: sender.Str, Msg: msg, Existed: existed, Amount: coin,
+	st := &l1Step{Kind: "deposit", Bridge: id, Signer: senderStr, Msg: msg, Existed: existed, Amount: coin,
 		Allowed: []sdk.AccAddress{sender.Addr, escrowAddr(id)}}
 	st.Res = w.e.Deliver(msg)
 	if st.Res.OK() {
@@ -393,8 +405,17 @@ func (w *l1World) newTuple(rt *rapid.T, b *mBridge) wd {
 	t := wd{Bridge: b.ID, Seq: b.NextWdSeq, From: "l2user" + fmt.Sprint(rapid.IntRange(0, 3).Draw(rt, "wfrom")),
 		To: w.user(rt, "wto").Str, Denom: w.denoms[rapid.IntRange(0, len(w.denoms)-1).Draw(rt, "wdenom")],
 		Amount: uint64(rapid.IntRange(1, 3_000_000).Draw(rt, "wamt"))}
-	if rapid.IntRange(0, 19).Draw(rt, "toOwnEscrow") == 0 {
+	switch rapid.IntRange(0, 39).Draw(rt, "toOwnEscrow") {
+	case 0, 1:
 		t.To = sdk.AccAddress(escrowAddr(b.ID)).String() // a withdrawal addressed to the bridge's own escrow account
+	case 2, 3:
+		// ... to the escrow account of another bridge (an L2 user may name any L1 address)
+		if ob := w.anyBridge(rt); ob != nil {
+			t.To = sdk.AccAddress(escrowAddr(ob.ID)).String()
+		}
+	case 4, 5:
+		// ... to a module account of L1 (the community pool's, the fee collector's)
+		t.To = rapid.SampledFrom([]sdk.AccAddress{w.feePool, w.feeCollector}).Draw(rt, "wmodule").String()
 	}
 	// mostly withdraw what the escrow can pay (an L2 can only burn what was deposited)
 	if rapid.IntRange(0, 9).Draw(rt, "funded") < 8 {
